@@ -24,7 +24,7 @@ def reset_fields(case, rsidx, T=None, strictread=False):
             "bolneeded": any(r["bol"] for r in case.src["rules"]),
             "rejectmode": bool(T["reject"]) if T else bool(cfg.get("reject")), "strictread": strictread,
             "reentrant": cfg.get("flavour") in ("r", "c99"), "userwrap": bool(cfg.get("userwrap")),
-            "failalloc": 0, "stdio": not cfg.get("userread", True), "yylmax": cfg.get("yylmax") or 8192}
+            "failalloc": 0, "stdio": (not cfg.get("userread", True)) and not cfg.get("useread"), "yylmax": cfg.get("yylmax") or 8192}
 
 
 def gen_script(rng, case, maxops=24, p_op=0.5):
